@@ -145,6 +145,15 @@ fn u64le(b: &[u8]) -> u64 {
     u64::from_le_bytes(x)
 }
 
+/// Commit digest of a commit payload (formula of `WalTransactionCommit::compute_digest`: the
+/// domain tag followed by every field before the digest itself, in encoding order).
+pub fn commit_digest_of(payload: &[u8]) -> H {
+    let mut h = blake3::Hasher::new();
+    h.update(b"echo:causal_wal:commit:v1\0");
+    h.update(&payload[..188]);
+    h.finalize().into()
+}
+
 /// Field extraction from a commit payload (layout of `encode_commit`).
 pub fn commit_info(payload: &[u8]) -> Option<CommitInfo> {
     if payload.len() != COMMIT_PAYLOAD_LEN {
